@@ -69,6 +69,24 @@ def h_join(ctx, base_sk, ref_sk):
     ctx.check("fragment", sym_eq(got[4], exp[4]))
 
 
+def h_schemes(ctx):
+    """every scheme that supports relative resolution (urllib.parse.uses_relative) resolves a relative reference"""
+    from urllib.parse import uses_relative, uses_netloc
+    P = ctx.P
+    t = ctx.str("t", 1, lo=97, hi=122)
+    for sc in sorted(set(uses_relative)):
+        if not sc:
+            continue
+        base = P.URL(sc + "://a/b/c?q#f")
+        r = call(lambda: base.join(P.URL(t + "?y")))
+        ctx.check("relative-scheme-resolves:" + sc, r[0] == "ok" and sym_eq(str(r[1]), sc + "://a/b/" + t + "?y"), sc)
+    for sc in ("mailto", "data", "urn", "x"):
+        base = P.URL(sc + ":a/b")
+        r = call(lambda: base.join(P.URL(t)))
+        ctx.check("non-relative-scheme-returns-reference:" + sc, r[0] == "ok" and sym_eq(str(r[1]), t), sc)
+    ctx.observe("done", True)
+
+
 def h_nonrelative(ctx, ref_sk):
     """a base whose scheme does not support relative resolution yields the reference unchanged"""
     P = ctx.P
@@ -116,4 +134,5 @@ def families(tier):
             fams.append(Family("join/%s/%s" % (bn, rn), h_join, dict(base_sk=bsk, ref_sk=rsk)))
     for rn, rsk in refs[:6]:
         fams.append(Family("nonrelative-base/%s" % rn, h_nonrelative, dict(ref_sk=rsk)))
+    fams.append(Family("schemes", h_schemes, {}))
     return fams
